@@ -307,6 +307,14 @@ def _run(case, cfg, v, reg, shapes, msgpack, w):
     # per-peer received packets
     for p, peer in peers.items():
         got = [pkt_key(r['pkt']) for r in peer.rx if not r.get('absorbed')]
+        if cfg['mode'] == 'thread' and cfg['async_handlers'] and \
+                frames_interleaved(peer.rx_raw):
+            # known finding: two handler threads of one client interleaved
+            # the frames of their multi-frame (binary) ACKs on the wire
+            v.add('interleaved_binary_ack_frames', 'peer %d: raw frames %s'
+                  % (p, [f if isinstance(f, str) else '<%d bytes>' % len(f)
+                         for f in peer.rx_raw][-8:]))
+            continue
         exp_strict = list(expected_rx[p])
         exp_opt = []
         for r in all_recs:
@@ -356,3 +364,27 @@ def _run(case, cfg, v, reg, shapes, msgpack, w):
                                     'msgpack' if msgpack else 'json'),
             'choices': w.choices.dump(),
             'log': w.rec.dump_log()}
+
+
+def frames_interleaved(raw):
+    """True if, in the raw engine.io frames a peer received, the header of a
+    binary Socket.IO packet was followed by another text frame before all of
+    its attachments had arrived."""
+    pending = 0
+    for f in raw:
+        if isinstance(f, (bytes, bytearray)):
+            if pending:
+                pending -= 1
+            continue
+        if not f.startswith('4'):
+            continue        # engine.io control packets may come in between
+        if pending:
+            return True
+        body = f[1:]
+        if body[:1] in ('5', '6'):
+            j = 1
+            while j < len(body) and body[j].isdigit():
+                j += 1
+            if j > 1 and body[j:j + 1] == '-':
+                pending = int(body[1:j])
+    return False
